@@ -329,6 +329,10 @@ impl Decoder {
             err!(other!("unsupported standard security handler revision {}", level))
         };
         if level <= 4 {
+            // the RC4 and AES-128 schemes use keys of 40 to 128 bits
+            if key_bits % 8 != 0 || !(40..=128).contains(&key_bits) {
+                err!(other!("invalid key length {}", key_bits));
+            }
             let key_size = key_bits as usize / 8;
             let key = key_derivation_user_password_rc4(level, key_size, dict, id, pass);
 
